@@ -37,6 +37,10 @@ func C12(c *Ctx) int {
 			Params: map[string]int{"tpl": t}, Reach: []string{"rejected", "accepted"}, Quiet: true,
 			Bounds: "one arbitrary byte in the second file of a two-file specification"})
 	}
+	for t := 0; t < 5; t++ {
+		hs = append(hs, Harness{Name: fmt.Sprintf("fe.HexHoles[tpl=%d]", t), Pkg: "internal/codegen", Func: "H_HexHoles",
+			Params: map[string]int{"tpl": t}, Quiet: true, Bounds: "\\x, \\u and \\U escapes in a literal / in a class with arbitrary hexadecimal digits in the holes"})
+	}
 	digits := []int{1, 2, 3, 19, 20}
 	for _, d := range digits {
 		hs = append(hs, Harness{Name: fmt.Sprintf("fe.Digits[%d]", d), Pkg: "internal/codegen", Func: "H_Digits",
